@@ -6,12 +6,16 @@
     conjunct means over R; theorems 11-13 turn the exact LDL^T deflation certificate into the statement
     "no orthonormal k-frame retains more variance" (Ky Fan).
     Pattern A (all inputs): theorems 14-21 are about the Gallina model of pca.rs at R_ops.
+    Extension: 23-25 close the former open item (with all p components the round trip is the identity:
+    an orthogonal family of p non-zero vectors of R^p spans R^p; V V^T = I implies V^T V = I for square V);
+    26-28 restate the Ky Fan certificate against the REPORTED explained variances with an explicit
+    slack [ky_slack]; 29 is the meaning of the conjunct on the scores `predict` actually returned.
 
     Notation: [bil u C v] = u^T C v, [cov oR n p X] the sample covariance (divisor n-1) of the rows of X,
     [lams_of oR n sg] = sigma_i^2/(n-1), [scs_of] = 1 (plain) or lambda_i (whitened embedding: the unit
     direction is v_i = sqrt(sc_i) w_i), [tolR e] = 2^-e. *)
 From Coq Require Import List NArith ZArith Reals Bool.
-From LinfaVerif Require Import Common.Num Common.NdSum Common.QF Common.LDL C18.Model C18.Check C18.Proofs.
+From LinfaVerif Require Import Common.Num Common.NdSum Common.QF Common.LDL C18.Model C18.Check C18.Proofs C18.Frames.
 Import ListNotations.
 Local Open Scope R_scope.
 
@@ -218,3 +222,88 @@ Theorem projected_covariance_is_bilinear_form : forall (n : N) (p : nat) (X : li
   length m = p ->
   bil u (cov R_ops n p X) v = cross_moment Xc u v / (INR (N.to_nat n) - 1).
 Proof. exact Proofs.projected_covariance_is_bilinear_form. Qed.
+
+(** 23. with all p components (orthogonal, non-zero: plain or whitened embedding) transform followed by
+        inverse_transform is the identity on the whole space: p orthogonal non-zero vectors span R^p
+        (dimension counting through Bessel's inequality on the unit vectors) *)
+Theorem full_rank_roundtrip_identity : forall (m : @pca R) (x : list R),
+  let p := length (pmean m) in
+  let W := embedding m in
+  orthogonal W -> Forall (fun w => length w = p) W -> length W = p -> length x = p ->
+  inverse_row R_ops m (predict_row R_ops m x) = x.
+Proof. exact Frames.full_rank_roundtrip_identity. Qed.
+
+(** 24. the same with the hypothesis in matrix form, V V^T = I for the p x p matrix of components *)
+Theorem full_rank_roundtrip_identity_gram : forall (m : @pca R) (x : list R),
+  let p := length (pmean m) in
+  let W := embedding m in
+  (forall i j, (i < length W)%nat -> (j < length W)%nat ->
+     Rdot (nth i W []) (nth j W []) = if Nat.eqb i j then 1 else 0) ->
+  Forall (fun w => length w = p) W -> length W = p -> length x = p ->
+  inverse_row R_ops m (predict_row R_ops m x) = x.
+Proof. exact Frames.full_rank_roundtrip_identity_gram. Qed.
+
+(** 25. left inverse implies right inverse for a square matrix with orthonormal rows: its columns are
+        orthonormal too, sum_i w_i[a] w_i[b] = delta_ab *)
+Theorem orthonormal_rows_orthonormal_columns : forall p W,
+  orthonormal W -> Forall (fun w => length w = p) W -> length W = p ->
+  forall a b, (a < p)%nat -> (b < p)%nat ->
+  Rsum (map (fun w => nth a w 0 * nth b w 0) W) = if Nat.eqb a b then 1 else 0.
+Proof. exact Frames.orthonormal_rows_orthonormal_columns. Qed.
+
+(** 26. "no k-dimensional orthogonal projection retains more variance": for a fit accepted by the checker
+        that returned all k components, EVERY orthonormal k-frame U of R^p satisfies
+        sum_i u_i^T C u_i <= sum_i explained_variance_i + slack, with C the exact sample covariance and
+        slack = (k 2^-17 + 2^-20 + k 2^-20) trace(C) + 2^-50 sum_i sigma_i^2/(n-1) *)
+Theorem no_projection_retains_more_variance :
+  forall n p k whiten (X : list (list dq)) mu sg W ev evr Qs invs Zs,
+  let ks := pca_checks DQ_ops n p k whiten X mu sg W ev evr Qs invs Zs in
+  k_shape ks = true -> k_projcov ks = true -> k_ev ks = true -> k_coefs ks = true -> k_bound ks = true ->
+  lead_psd p (k_T ks) (k_M ks) = true -> length sg = N.to_nat k ->
+  let C := cov R_ops n p (map (map D2R) X) in
+  let lams := lams_of R_ops n (map D2R sg) in
+  forall U, orthonormal U -> Forall (fun u => length u = p) U -> length U = N.to_nat k ->
+  retained_by C U <= Rsum (map D2R ev) + ky_slack (N.to_nat k) (N.to_nat k) (trace R_ops C) (Rsum lams).
+Proof. exact Frames.no_projection_retains_more_variance. Qed.
+
+(** 27. the general form: when the solver dropped k - m components below its cut-off, each of them is
+        charged mu0 (the cut-off eps 1e6 lambda_1) *)
+Theorem variance_optimality_certified :
+  forall n p k whiten (X : list (list dq)) mu sg W ev evr Qs invs Zs,
+  let ks := pca_checks DQ_ops n p k whiten X mu sg W ev evr Qs invs Zs in
+  k_shape ks = true -> k_projcov ks = true -> k_ev ks = true -> k_coefs ks = true -> k_bound ks = true ->
+  lead_psd p (k_T ks) (k_M ks) = true ->
+  let C := cov R_ops n p (map (map D2R) X) in
+  let lams := lams_of R_ops n (map D2R sg) in
+  forall U, orthonormal U -> Forall (fun u => length u = p) U -> length U = N.to_nat k ->
+  retained_by C U <=
+    Rsum (map D2R ev) + (INR (N.to_nat k) - INR (length sg)) * mu0_of R_ops k lams
+    + ky_slack (N.to_nat k) (length sg) (trace R_ops C) (Rsum lams).
+Proof. exact Frames.variance_optimality_certified. Qed.
+
+(** 28. and the bound is attained: the returned components (unit directions sqrt(sc_i) w_i) retain the
+        sum of the reported explained variances up to m 2^-20 trace(C) + 2^-50 sum lambda; for a plain
+        embedding the left-hand quantity is sum_i w_i^T C w_i (Frames.retained_plain) *)
+Theorem reported_variance_attained :
+  forall n p k whiten (X : list (list dq)) mu sg W ev evr Qs invs Zs,
+  let ks := pca_checks DQ_ops n p k whiten X mu sg W ev evr Qs invs Zs in
+  k_projcov ks = true -> k_ev ks = true ->
+  let WR := map (map D2R) W in
+  let C := cov R_ops n p (map (map D2R) X) in
+  let lams := lams_of R_ops n (map D2R sg) in
+  let scs := scs_of R_ops whiten lams in
+  Rabs (retained R_ops scs (G_of R_ops WR (CW_of R_ops C WR)) - Rsum (map D2R ev))
+    <= INR (length sg) * tolR 20 * trace R_ops C + tolR 50 * Rsum lams.
+Proof. exact Frames.reported_variance_attained_certified. Qed.
+
+(** 29. the scores `predict` returned for the n training rows (Z, one row per record) have sample covariance
+        S = cov Z with sc_i S_ii = sigma_i^2/(n-1) and S_ij = 0 up to 2^-20 T: uncorrelated coordinates with
+        the reported variances; identity covariance for a whitened embedding (sc_i = lambda_i) *)
+Theorem scores_covariance_certified : forall n T lams scs Z, scorecov_ok R_ops n T lams scs Z = true ->
+  length Z = N.to_nat n /\ Forall (fun z => length z = length lams) Z /\
+  let S := cov R_ops n (length lams) Z in
+  forall i j, (i < length lams)%nat -> (j < length lams)%nat ->
+  let s := nth j (nth i S []) 0 in
+  (i = j -> Rabs (nth i scs 0 * s - nth i lams 0) <= tolR 20 * T) /\
+  (i <> j -> nth i scs 0 * nth j scs 0 * (s * s) <= (tolR 20 * T) * (tolR 20 * T)).
+Proof. exact scorecov_ok_sound. Qed.
